@@ -6,7 +6,7 @@ LEVEL_TEXT = ("Every String operation (new, assign, concat/append, resize, clear
               "length 0..3 (thorough 0..4) with symbolic non-NUL bytes (including bytes above 127), operand strings of length 0..2 (3); afterwards the String must hold exactly the abstract "
               "result, NUL-terminated inside its own allocation, with len/c_str agreeing; rem deletes the first occurrence (start, middle, end, overlapping) and raises on an absent substring "
               "leaving the target unchanged; stack receivers must raise ValueError before any reallocation. Longer strings are not decided, hence not a proof.")
-NOTE = "libc string functions are reference models (assumed to be what libc does); vsnprintf/vsprintf assumed consistent with each other; realloc/free are cbmc's models without allocation failure; String_Cmp and String_Hash are the K1 proofs of C09/C10"
+NOTE = "libc string functions are reference models (assumed to be what libc does); vsnprintf/vsprintf assumed consistent with each other; realloc/free are cbmc's models without allocation failure; operands overlapping the target (the String itself, a view of its buffer) included; String_Cmp on texts of length <= 2 against the definition of the order; String_Hash is the K1 proof of C10"
 EXPLANATION = LEVEL_TEXT
 TRUSTED = ["libc strlen/strcpy/strcat/strstr/memmove behave as the reference models in stubs/libc_str.c", "vsnprintf(NULL,0,..) returns the length vsprintf writes"]
 
